@@ -169,12 +169,23 @@ pub open spec fn trimall(s: Seq<char>) -> Seq<char> { collapse(trim_ws(s)) }
 
 pub type Hdr = (Seq<char>, Seq<char>);
 pub open spec fn hviews(v: Seq<(&str, &str)>) -> Seq<Hdr> { v.map_values(|p: (&str, &str)| (p.0@, p.1@)) }
-/// Lowercase(name) + ':' + Trimall(value) + '\n' for every signed header except `authorization`
+/// name of the latest header other than `authorization` ("" when there is none): what the local `last` holds
+pub open spec fn last_kept(h: Seq<Hdr>) -> Seq<char>
+    decreases h.len()
+{
+    if h.len() == 0 { ""@ } else if h.last().0 != "authorization"@ { h.last().0 } else { last_kept(h.drop_last()) }
+}
+/// AWS SigV4 CanonicalHeaders over the selected headers in list order, `authorization` left out: `Lowercase(name):` + the values of
+/// that header, each Trimall'ed, joined by ',' in request order + '\n' — written over prefixes: a pair whose name equals the
+/// previous kept pair's name continues that pair's line (the '\n' gives way to ',' + value + '\n'), any other pair starts a line.
+/// (Equal names are adjacent: the selection lists all values of a name together.) The reference signer of the replay writes the
+/// same thing the declarative way (`name:v1,v2`), so the two are compared on every replay.
 pub open spec fn header_lines(h: Seq<Hdr>) -> Seq<char>
     decreases h.len()
 {
     if h.len() == 0 { Seq::empty() }
     else if h.last().0 == "authorization"@ { header_lines(h.drop_last()) }
+    else if h.last().0 == last_kept(h.drop_last()) { header_lines(h.drop_last()).drop_last() + seq![','] + trimall(h.last().1) + seq!['\n'] }
     else { header_lines(h.drop_last()) + h.last().0 + seq![':'] + trimall(h.last().1) + seq!['\n'] }
 }
 /// does any header other than `authorization` occur
@@ -183,17 +194,29 @@ pub open spec fn any_kept(h: Seq<Hdr>) -> bool
 {
     if h.len() == 0 { false } else { any_kept(h.drop_last()) || h.last().0 != "authorization"@ }
 }
-/// the names of the same headers joined by ';'
+/// the distinct names of the same headers, in order, joined by ';' (a name is listed once however many values it has)
 pub open spec fn names_joined(h: Seq<Hdr>) -> Seq<char>
     decreases h.len()
 {
     if h.len() == 0 { Seq::empty() }
-    else if h.last().0 == "authorization"@ { names_joined(h.drop_last()) }
+    else if h.last().0 == "authorization"@ || h.last().0 == last_kept(h.drop_last()) { names_joined(h.drop_last()) }
     else if !any_kept(h.drop_last()) { names_joined(h.drop_last()) + h.last().0 }
     else { names_joined(h.drop_last()) + seq![';'] + h.last().0 }
 }
+/// every header name has at least one character (http::HeaderName cannot be empty: HeaderName::from_bytes refuses b"" — the
+/// http crate is a dependency, trusted); the blocks below start from `last = ""`, so an empty name would be taken for a repeat
+pub open spec fn names_nonempty(h: Seq<Hdr>) -> bool { forall|i: int| 0 <= i < h.len() ==> (#[trigger] h[i]).0.len() > 0 }
+/// a continued line is never empty: it ends with the line feed of the previous value
+pub proof fn lemma_lines_end_with_newline(h: Seq<Hdr>)
+    ensures any_kept(h) ==> header_lines(h).len() > 0 && header_lines(h).last() == '\n', last_kept(h) != ""@ ==> any_kept(h)
+    decreases h.len()
+{
+    if h.len() > 0 { lemma_lines_end_with_newline(h.drop_last()); }
+}
+// String::pop: vstd's own specification (pops the last char, None on empty)
 
 pub fn canonical_headers_block(ans0: String, signed_headers: &OrderedHeaders<'_>) -> (ret: String)
+    requires names_nonempty(hviews(signed_headers.headers@)),
     ensures
         //# C05:canon.headers.name_colon_trimall_value_newline
         ret@ == ans0@ + header_lines(hviews(signed_headers.headers@)) + seq!['\n'],
@@ -206,6 +229,7 @@ pub fn canonical_headers_block(ans0: String, signed_headers: &OrderedHeaders<'_>
 }
 
 pub fn presigned_canonical_headers_block(ans0: String, signed_headers: &OrderedHeaders<'_>) -> (ret: String)
+    requires names_nonempty(hviews(signed_headers.headers@)),
     ensures
         //# C06:canon.presigned_headers.name_colon_trimall_value_newline
         ret@ == ans0@ + header_lines(hviews(signed_headers.headers@)) + seq!['\n'],
@@ -218,6 +242,7 @@ pub fn presigned_canonical_headers_block(ans0: String, signed_headers: &OrderedH
 }
 
 pub fn signed_headers_block(ans0: String, signed_headers: &OrderedHeaders<'_>) -> (ret: String)
+    requires names_nonempty(hviews(signed_headers.headers@)),
     ensures
         //# C05:canon.signed_headers.names_joined_by_semicolon
         ret@ == ans0@ + names_joined(hviews(signed_headers.headers@)) + seq!['\n'],
@@ -230,6 +255,7 @@ pub fn signed_headers_block(ans0: String, signed_headers: &OrderedHeaders<'_>) -
 }
 
 pub fn presigned_signed_headers_block(ans0: String, signed_headers: &OrderedHeaders<'_>) -> (ret: String)
+    requires names_nonempty(hviews(signed_headers.headers@)),
     ensures
         //# C06:canon.presigned_signed_headers.names_joined_by_semicolon
         ret@ == ans0@ + names_joined(hviews(signed_headers.headers@)) + seq!['\n'],
